@@ -74,7 +74,7 @@ def incs():
 def compile_ll(tu, extra=()):
     src = src_path(tu)
     if not os.path.exists(src): raise BuildError('missing source ' + src)
-    harness = src.startswith(VERIF)
+    harness = src.startswith(VERIF) or '/wbverif-gen/' in src
     flags = CLANG_FLAGS + list(extra) + (['-fno-access-control'] if harness else [])
     key = sha(open(src, 'rb').read(), include_hash(), source_tree_hash() if harness else '', ' '.join(flags), src, 'v4')
     out = os.path.join(CACHE, 'll', key + '.ll')
@@ -104,7 +104,7 @@ def build_ir(tus, extra=()):
     return link_ll(lls)
 
 def compile_obj(tu, extra=()):
-    src = src_path(tu); harness = src.startswith(VERIF)
+    src = src_path(tu); harness = src.startswith(VERIF) or '/wbverif-gen/' in src
     flags = GXX_FLAGS + list(extra) + (['-DSYM_NATIVE', '-fno-access-control'] if harness else [])
     cc = 'clang++-14' if harness else 'g++'     # -fno-access-control is a clang flag; repo sources use the project's compiler
     if harness: flags = [f for f in flags if f != '-w'] + ['-Wno-everything']
